@@ -31,10 +31,12 @@ def install_recorders(it, ev):
 class Hyperlinks(Harness):
     name = 'hyperlink.rid_pairing'; property_id = 'C06'
     entry = ['writer::xlsx::worksheet::write', 'writer::xlsx::worksheet_rels::write', WS + 'get_hyperlink_collection_to_hashmap']
-    def __init__(self, tier):
-        self.n = 2 if tier == 'quick' else 3
+    def __init__(self, tier, n=None, kinds=None, name=None):
+        self.n = n or 2
+        self.kinds = kinds or KINDS
+        if name: self.name = name
         self.doc = 'the real sheet-part writer and relationship-part writer on a worksheet with %d hyperlinked cells (each an external link, an external link with an empty address, or an internal location), with the XML driver replaced by an event recorder and every HashMap iteration taking a solver-chosen order: each r:id of the sheet part resolves to the URL of its own cell' % self.n
-        self.bounds = {'hyperlinks': self.n, 'kinds': KINDS, 'hash_map_iteration_order': 'every permutation, chosen independently per iteration', 'sub_writers': 'stubbed (no output): everything except the hyperlinks block and the relationship loop'}
+        self.bounds = {'hyperlinks': self.n, 'kinds': self.kinds, 'hash_map_iteration_order': 'every permutation, chosen independently per iteration', 'sub_writers': 'stubbed (no output): everything except the hyperlinks block and the relationship loop'}
     def run(self, it, ctx, res):
         ev_sheet, ev_rels = Events(), Events()
         it.hash_order = 'symbolic'; it._hm_iter = 0
@@ -42,7 +44,7 @@ class Hyperlinks(Harness):
             ws = new_sheet(it)
             urls = {}; kinds = []
             for i in range(self.n):
-                ki = ctx.sym_int('kind%d' % i, 0, 2); kind = KINDS[next(k for k in range(3) if ctx.branch(ki == k))]; kinds.append(kind)
+                ki = ctx.sym_int('kind%d' % i, 0, len(self.kinds) - 1); kind = self.kinds[next(k for k in range(len(self.kinds)) if ctx.branch(ki == k))]; kinds.append(kind)
                 cell = it.call(WS + 'get_cell_mut::<(u32, u32)>', [Ref(ws), [1, i + 1]])
                 h = it.call('structs::cell::Cell::get_hyperlink_mut', [cell])
                 u = '' if kind == 'blank' else 'u%d' % (i + 1)
@@ -76,7 +78,7 @@ class Hyperlinks(Harness):
         n_ext = sum(1 for k in kinds if k != 'location')
         self.oblige(ctx, res, 'one-relationship-per-external-link', len(rels) == n_ext, info=dict(info, relationships=len(rels)))
     def case_of(self, v):
-        kinds = [KINDS[v['model'].get('kind%d' % i, 0)] for i in range(self.n)]
+        kinds = [self.kinds[v['model'].get('kind%d' % i, 0)] for i in range(self.n)]
         c = {'hyperlinks': self.n, 'kinds': kinds, 'pairs': v['info'].get('pairs'), 'orders': {k: val for k, val in v['model'].items() if k.startswith('hash_order')}}
         c['show'] = dict(c); return c
     def confirm(self, case, profile):
@@ -153,5 +155,9 @@ class PartAllocation(Harness):
         return before != after, 'four sheets with one comment each, lazily read, sheets %r left untouched and the others touched: comments before %r, after save and reload %r' % (ex, before, after)
 
 def harnesses(tier):
-    return [Hyperlinks(tier), PartAllocation(tier)]
+    from harness import rt
+    if tier == 'quick': return [Hyperlinks(tier), PartAllocation(tier)] + rt.harnesses_for('C06', tier)
+    # thorough: additionally three external links under all iteration orders (6^6 orders; symbolic kinds for three links
+    # would be 27 times that and did not finish in 15 minutes)
+    return [Hyperlinks(tier), Hyperlinks(tier, n=3, kinds=['url'], name='hyperlink.rid_pairing.3links'), PartAllocation(tier)] + rt.harnesses_for('C06', tier)
 OPTIONS = {'want_smir': True}
